@@ -1,8 +1,12 @@
 import ArimModel.Weights
+import ArimProofs.Lemmas.Weights
+import Mathlib.Analysis.Complex.Trigonometric
+import Mathlib.Analysis.Real.Sqrt
 /-! # C06 — 2-D beamspread equals the geometric ray-tube divergence -/
 namespace Arim.C06
 open Arim.Weights
 
+section basic
 variable {K : Type} [Add K] [Sub K] [Mul K] [Div K]
 
 /-- **Single medium**: with one leg the virtual distance is the leg length `d = r` -/
@@ -13,5 +17,199 @@ theorem single_medium (t : RTrig K) (r v : K) :
 /-- the beamspread is a function of the leg lengths, velocities and incidence angles only -/
 theorem depends_only_on (t : RTrig K) (legs vels thetas : List K) :
     beamspread t legs vels thetas = t.one / t.sqrt (virtualDistance t.one legs (gammas t vels thetas)) := rfl
+
+end basic
+
+/-- the real instance of the routines -/
+noncomputable def rT : RTrig ℝ :=
+  { sin := Real.sin, cos := Real.cos, sqrt := Real.sqrt, exp := Real.exp, one := 1, zero := 0 }
+
+/-! ## the loops of `virtual_distance` as a closed formula -/
+section closed
+variable {K : Type} [Field K]
+
+/-- **Closed formula**: `d = r₁ + Σ_k r_{k+1} / (γ_1 ⋯ γ_k)`; out-of-range entries of `gs` count
+as `1`, exactly as `take (k+1)` and `getD k one` do in the model -/
+theorem virtualDistance_eq_sum (r₁ : K) (rest gs : List K) :
+    virtualDistance 1 (r₁ :: rest) gs =
+      r₁ + ∑ k ∈ Finset.range rest.length,
+        rest.getD k 1 / ∏ i ∈ Finset.range (k + 1), gs.getD i 1 := by
+  rw [virtualDistance_cons_take]
+  simp only [take_prod_eq]
+
+/-- the same with the legs indexed by `Fin` (no default value involved) -/
+theorem virtualDistance_eq_sum_fin (r₁ : K) (rest gs : List K) :
+    virtualDistance 1 (r₁ :: rest) gs =
+      r₁ + ∑ k : Fin rest.length, rest[k] / ∏ i ∈ Finset.range (k.1 + 1), gs.getD i 1 := by
+  rw [virtualDistance_eq_sum, ← Fin.sum_univ_eq_sum_range
+    (fun k => rest.getD k 1 / ∏ i ∈ Finset.range (k + 1), gs.getD i 1)]
+  congr 1
+  apply Finset.sum_congr rfl
+  intro k _
+  simp [List.getD_eq_getElem?_getD]
+
+/-- the empty path has virtual distance `one` (a convention of the model, not a length) -/
+theorem virtualDistance_nil (gs : List K) : virtualDistance (1 : K) [] gs = 1 := rfl
+
+/-! ## transport of the radius of curvature of the ray tube -/
+
+/-- transport the radius of curvature `ρ` along the remaining legs: `ρ ↦ γ ρ` across an
+interface, `ρ ↦ ρ + r` along a leg (`γ = 1` where `gs` has run out) -/
+def transport : K → List K → List K → K
+  | ρ, [], _ => ρ
+  | ρ, r :: rest, [] => transport (ρ + r) rest []
+  | ρ, r :: rest, γ :: gs => transport (γ * ρ + r) rest gs
+
+/-- `ρ_n`: `ρ₁ = r₁`, `ρ_{k+1} = γ_k ρ_k + r_{k+1}` -/
+def rho : List K → List K → K
+  | [], _ => 0
+  | r₁ :: rest, gs => transport r₁ rest gs
+
+@[simp] theorem rho_single (r₁ : K) (gs : List K) : rho [r₁] gs = r₁ := rfl
+
+@[simp] theorem rho_step (r₁ r₂ γ : K) (rest gs : List K) :
+    rho (r₁ :: r₂ :: rest) (γ :: gs) = rho ((γ * r₁ + r₂) :: rest) gs := rfl
+
+theorem virtualDistance_eq_transport (ρ : K) (rest gs : List K) (hg : ∀ γ ∈ gs, γ ≠ 0) :
+    virtualDistance 1 (ρ :: rest) gs = transport ρ rest gs / (gs.take rest.length).prod := by
+  induction rest generalizing ρ gs with
+  | nil => simp [virtualDistance, transport]
+  | cons r rest ih =>
+    cases gs with
+    | nil =>
+      rw [virtualDistance_step_nil, ih _ _ hg]; simp [transport]
+    | cons γ gs =>
+      have hγ : γ ≠ 0 := hg γ (by simp)
+      rw [virtualDistance_step _ _ _ _ _ hγ, ih _ _ (fun g hg' => hg g (by simp [hg']))]
+      simp only [transport, List.length_cons, List.take_succ_cons, List.prod_cons]
+      rw [div_div, mul_comm _ γ]
+
+/-- **Ray-tube recursion**: the virtual distance is the transported radius of curvature `ρ_n`
+divided by the product of the interface factors -/
+theorem beamspread_eq_recursion (legs gs : List K) (hlen : gs.length + 1 = legs.length)
+    (hg : ∀ γ ∈ gs, γ ≠ 0) :
+    virtualDistance 1 legs gs = rho legs gs / gs.prod := by
+  cases legs with
+  | nil => simp at hlen
+  | cons r₁ rest =>
+    rw [virtualDistance_eq_transport r₁ rest gs hg, List.take_of_length_le (by simp at hlen; omega)]
+    rfl
+
+/-! ## similarity -/
+
+/-- scaling all legs by `s` scales the virtual distance by `s` (false for the empty path, for which the model
+returns `one`) -/
+theorem scaling (s : K) (legs gs : List K) (hne : legs ≠ []) :
+    virtualDistance 1 (legs.map (s * ·)) gs = s * virtualDistance 1 legs gs := by
+  cases legs with
+  | nil => exact absurd rfl hne
+  | cons r₁ rest =>
+    rw [List.map_cons, virtualDistance_cons_take, virtualDistance_cons_take, mul_add, Finset.mul_sum,
+      List.length_map]
+    congr 1
+    apply Finset.sum_congr rfl
+    intro k hk
+    have hk' : k < rest.length := Finset.mem_range.1 hk
+    simp [List.getD_eq_getElem?_getD, hk', mul_div_assoc]
+
+end closed
+
+/-! ## the interface factor is Schmerr's ray-tube factor -/
+section snell
+variable {K : Type} [Field K]
+
+/-- **γ under Snell's law**: at an interface with incoming velocity `vIn`, outgoing velocity
+`vOut`, incidence angle `θIn` and refraction (or reflection) angle `θOut` linked by
+`vIn sin θOut = vOut sin θIn`, the factor `(ν² − sin²θIn)/(ν cos²θIn)`, `ν = vIn/vOut`, of the code
+is the classical `vIn cos²θOut / (vOut cos²θIn)`. Only `vOut ≠ 0` and `cos²θOut = 1 − sin²θOut`
+are needed (for `vIn = 0` or `cos θIn = 0` both sides are `0` by `x/0 = 0`). -/
+theorem gamma_snell (t : RTrig K) (vIn vOut θIn θOut : K) (vs ths : List K) (hv : vOut ≠ 0)
+    (snell : vIn * t.sin θOut = vOut * t.sin θIn)
+    (pyth : t.cos θOut * t.cos θOut = 1 - t.sin θOut * t.sin θOut) :
+    gammas t (vIn :: vOut :: vs) (θIn :: ths) =
+      (vIn * t.cos θOut * t.cos θOut) / (vOut * t.cos θIn * t.cos θIn) :: gammas t (vOut :: vs) ths := by
+  simp only [gammas]
+  rw [gamma_snell_aux vIn vOut (t.sin θIn) (t.cos θIn) (t.sin θOut) (t.cos θOut) hv snell pyth]
+
+end snell
+
+/-! ## the real instance -/
+section real
+
+theorem rT_pyth (x : ℝ) : rT.cos x * rT.cos x = 1 - rT.sin x * rT.sin x := by
+  have := Real.sin_sq_add_cos_sq x
+  simp only [rT]; nlinarith [this]
+
+/-- **γ under Snell's law, real angles** -/
+theorem gamma_snell_real (vIn vOut θIn θOut : ℝ) (hv : vOut ≠ 0)
+    (snell : vIn * Real.sin θOut = vOut * Real.sin θIn) :
+    gammas rT [vIn, vOut] [θIn] = [(vIn * Real.cos θOut ^ 2) / (vOut * Real.cos θIn ^ 2)] := by
+  rw [gamma_snell rT vIn vOut θIn θOut [] [] hv snell (rT_pyth θOut)]
+  simp only [gammas, rT, pow_two, mul_assoc]
+
+/-- **Beamspread = ray-tube divergence**: the returned amplitude is `1/√(ρ_n / ∏ γ_k)`, where
+`ρ_n` is the radius of curvature of the ray tube transported leg by leg (`ρ ↦ γ ρ` at an
+interface, `ρ ↦ ρ + r` along a leg) -/
+theorem beamspread_eq_tube (legs vels thetas : List ℝ)
+    (hlen : (gammas rT vels thetas).length + 1 = legs.length)
+    (hg : ∀ γ ∈ gammas rT vels thetas, γ ≠ 0) :
+    beamspread rT legs vels thetas =
+      1 / Real.sqrt (rho legs (gammas rT vels thetas) / (gammas rT vels thetas).prod) := by
+  rw [← beamspread_eq_recursion legs _ hlen hg]; rfl
+
+/-- the number of interface factors is the number of interior interfaces -/
+theorem gammas_length {K : Type} [Field K] (t : RTrig K) (vels thetas : List K)
+    (h : thetas.length + 1 = vels.length) : (gammas t vels thetas).length = thetas.length := by
+  rw [gammas_eq_ifaceMap, ifaceMap_length _ _ _ h]
+
+/-- **Similarity**: scaling all legs by `s ≥ 0` (angles and velocities unchanged) divides the
+beamspread by `√s` -/
+theorem scaling_beamspread (s : ℝ) (hs : 0 ≤ s) (legs vels thetas : List ℝ) (hne : legs ≠ []) :
+    beamspread rT (legs.map (s * ·)) vels thetas = beamspread rT legs vels thetas / Real.sqrt s := by
+  unfold beamspread
+  change 1 / Real.sqrt (virtualDistance 1 _ _) = 1 / Real.sqrt (virtualDistance 1 _ _) / Real.sqrt s
+  rw [scaling s legs _ hne, Real.sqrt_mul hs, div_div, mul_comm]
+
+end real
+
+/-! ## non-vacuity -/
+section examples
+
+/-- three legs, two interfaces: `1 + 2/2 + 3/(2·(1/2)) = 5` -/
+example : virtualDistance (1 : ℚ) [1, 2, 3] [2, 1 / 2] = 5 := by
+  norm_num [virtualDistance, List.range, List.range.loop]
+
+/-- the same through the ray-tube recursion: `ρ₃ = (1/2)(2·1 + 2) + 3 = 5`, `∏ γ = 1` -/
+example : rho ([1, 2, 3] : List ℚ) [2, 1 / 2] / ([2, 1 / 2] : List ℚ).prod = 5 := by
+  norm_num [rho, transport]
+
+example : virtualDistance (1 : ℚ) [1, 2, 3] [2, 1 / 2] = rho [1, 2, 3] [2, 1 / 2] / ([2, 1 / 2] : List ℚ).prod :=
+  beamspread_eq_recursion _ _ rfl (by norm_num)
+
+/-- a rational "trigonometry" (3-4-5 triangle): incidence `sin = 3/5`, refraction `sin = 4/5` for
+`vIn = 3`, `vOut = 4` -/
+def tQ : RTrig ℚ :=
+  { sin := fun x => if x = 0 then 3 / 5 else 4 / 5, cos := fun x => if x = 0 then 4 / 5 else 3 / 5,
+    sqrt := id, exp := id, one := 1, zero := 0 }
+
+/-- `γ = vIn cos²θOut / (vOut cos²θIn) = 3·(9/25) / (4·(16/25)) = 27/64` -/
+example : gammas tQ [3, 4] [0] = [27 / 64] := by
+  rw [gamma_snell tQ 3 4 0 1 [] [] (by norm_num) (by norm_num [tQ]) (by norm_num [tQ])]
+  norm_num [tQ, gammas]
+
+/-- scaling a two-leg path by `4` -/
+example : virtualDistance (1 : ℚ) ([1, 2].map (4 * ·)) [2] = 4 * virtualDistance 1 [1, 2] [2] :=
+  scaling 4 _ _ (by simp)
+
+/-- the scaling law fails for the empty path (the model returns `one`) -/
+example : virtualDistance (1 : ℚ) (([] : List ℚ).map (4 * ·)) [2] ≠ 4 * virtualDistance 1 [] [2] := by
+  norm_num [virtualDistance]
+
+/-- normal incidence on a real two-leg path: Snell holds trivially and `γ = vIn/vOut` -/
+example : gammas rT [1, 2] [0] = [1 / 2] := by
+  rw [gamma_snell_real 1 2 0 0 (by norm_num) (by simp)]
+  norm_num
+
+end examples
 
 end Arim.C06
